@@ -330,6 +330,8 @@ def loadProps (st : LS) (name : String) : List PropDef → Std.HashMap String Nu
     | .ok input =>
       match Eval.evalExpr (mkCtx st temps) p.output with
       | .ok output =>
+        -- whether a machine float is zero decides acceptance: outside the model
+        if input.value == .float || output.value == .float then .error "unsupported:float property" else
         match Number.div input output with
         | .ok ratio =>
           -- after the fix: a zero input is refused as well (`Substance::get` divides by it)
@@ -471,7 +473,8 @@ def loadOne (st : LS) (id : Id) (d : Def) : LS :=
        (match symbol with
         | some sym => { st with symbols := st.symbols.insert sym name }
         | none => st)
-     | .error _ => { st with errors := st.errors ++ ["substance-malformed:" ++ name] })
+     | .error msg =>
+       { st with errors := st.errors ++ [if msg.startsWith "unsupported:" then "unsupported:" ++ name else "substance-malformed:" ++ name] })
   | .category display => { st with categoryNames := st.categoryNames.insert name display }
   | .error _ => { st with errors := st.errors ++ ["def-error:" ++ name] }
 
